@@ -32,7 +32,9 @@
 (***************************************************************************)
 EXTENDS BankOps, FiniteSets, SequencesExt, TLC, Json
 
-CONSTANTS Mods        \* module slot -> "accept" | "fail"   (custom, staking, distribution, ibc, gov, stargate, any)
+CONSTANTS Mods,       \* module slot -> "accept" | "fail"   (custom, staking, distribution, ibc, gov, stargate, any)
+          AddrMode    \* "simple": the default address generator (a function of code id and instance count);
+                      \* "percode": a custom AddressGenerator handing out one well-known address per code id
 
 NoData      == [t |-> "none", a |-> "", d |-> ""]
 Raw(d)      == [t |-> "raw", a |-> "", d |-> d]
@@ -65,7 +67,8 @@ BadResponse(b) == \/ BadAttrs(b.attrs)
 
 (* ------------------------------------------------------------------------ *)
 (* names                                                                    *)
-ClassicName(code, n) == "c" \o ToString(code) \o "_" \o ToString(n)
+ClassicName(code, n) == IF AddrMode = "percode" THEN "p" \o ToString(code)
+                        ELSE "c" \o ToString(code) \o "_" \o ToString(n)
 SaltedName(ck, creator, salt) == "s" \o ck \o "_" \o creator \o "_" \o salt
 
 RECURSIVE CoinsStr(_)
